@@ -13,14 +13,35 @@ REPO = os.environ.get('SARPY_REPO', '/repo')
 BPS = {'CI2': 2, 'CI4': 4, 'CF8': 8}
 SIG_DTYPE = {'CI2': '>i1', 'CI4': '>i2', 'CF8': '>f4'}
 
-# support array kinds: (descriptor class name, element format, numpy dtype, bytes per element, components)
+# support array kinds: (element format, numpy dtype of one component, bytes per element, components) - written down from the standard's
+# binary format table, NOT derived from sarpy: scalar formats, homogeneous multi-component formats (a trailing depth axis), the two
+# component sets sarpy maps to numpy sub-array dtypes (X/Y/Z and DCX/DCY), complex formats, strings
 SUPPORT_KINDS = {
     'IAZ': ('IAZ=F4;', '>f4', 4, 1),
     'AGP': ('Gain=F4;Phase=F4;', '>f4', 8, 2),
     'ADD_I2': ('I2', '>i2', 2, 1),
     'ADD_F8': ('F8', '>f8', 8, 1),
+    'ADD_U1': ('U1', 'u1', 1, 1),
     'ADD_CI4': ('CI4', '>i2', 4, 2),
+    'ADD_CF8': ('CF8', '>c8', 8, 1),
+    'ADD_XYZ8': ('X=F8;Y=F8;Z=F8;', '>f8', 24, 3),
+    'ADD_XYZ4': ('X=F4;Y=F4;Z=F4;', '>f4', 12, 3),
+    'ADD_DCXY': ('DCX=F4;DCY=F4;', '>f4', 8, 2),
+    'ADD_AB_I2': ('A=I2;B=I2;', '>i2', 4, 2),
+    'ADD_3I4': ('P=I4;Q=I4;R=I4;', '>i4', 12, 3),
 }
+# CPHD only (the CRSD schema has no dwell time arrays)
+SUPPORT_KINDS_CPHD = dict(SUPPORT_KINDS, DTA=('COD=F4;DT=F4;', '>f4', 8, 2))
+# heterogeneous element format -> one structured element (known finding: sarpy refuses it)
+HETEROGENEOUS = ('A=F4;B=I2;', [('A', '>f4'), ('B', '>i2')], 6, 1)
+EXPECT_BY_FORMAT = {v[0]: v for v in SUPPORT_KINDS_CPHD.values()}
+
+
+def support_layout(element_format):
+    """(dtype, depth) an array of this element format has, from the table above (independent of sarpy)"""
+    _, dt, _, depth = EXPECT_BY_FORMAT[element_format]
+    return numpy.dtype(dt), depth
+
 
 PVP_OPTIONAL = ('DGRGC', 'SIGNAL', 'RcvAntenna', 'TxPulse', 'TxLFM', 'TxAntenna', 'AddedPVP')
 
@@ -183,17 +204,21 @@ def make_raw(meta, rng):
 
 
 def make_support(meta, rng):
-    """arrays in the dtype/shape the reader and writer derive from the element format (get_numpy_format)"""
+    """arrays in the dtype/shape the standard gives for the element format (table SUPPORT_KINDS; independent of sarpy's get_numpy_format)"""
     out = {}
     if meta.Data.SupportArrays is None:
         return out
     for s in meta.Data.SupportArrays:
         details = meta.SupportArray.find_support_array(s.Identifier)
-        dtype, depth = details.get_numpy_format()
+        dtype, depth = support_layout(details.ElementFormat)
         shape = (s.NumRows, s.NumCols) if depth == 1 else (s.NumRows, s.NumCols, depth)
         n = int(numpy.prod(shape))
-        if numpy.dtype(dtype).kind in 'iu':
+        if dtype.kind == 'u':
+            a = numpy.array([rng.randint(0, 255) for _ in range(n)])
+        elif dtype.kind == 'i':
             a = numpy.array([rng.randint(-30000, 30000) for _ in range(n)])
+        elif dtype.kind == 'c':
+            a = numpy.array([complex(rng.uniform(-1, 1), rng.uniform(-1, 1)) for _ in range(n)])
         else:
             a = numpy.array([rng.uniform(-1, 1) for _ in range(n)])
         out[s.Identifier] = a.astype(dtype).reshape(shape)
